@@ -39,7 +39,7 @@ func flat(body *ast.BlockStmt) []ast.Stmt {
 }
 
 type stopFacts struct {
-	lock    bool      // the method holds recv.stopLock from lockPos to every exit (deferred or explicit unlocks)
+	lock    bool // the method holds recv.stopLock from lockPos to every exit (deferred or explicit unlocks)
 	lockPos token.Pos
 	// guards: a position p is guarded when the code at p runs only if recv.stopped is false:
 	// after a top-level `if recv.stopped { [unlock;] return }`, or inside a top-level `if !recv.stopped { … }`
